@@ -117,9 +117,70 @@ CLAIMED["C20"] = {
     "technique": "Coq proof by induction over the history (refinement of association lists to a per-key spec) + correspondence",
 }
 
+TBR = TB + " Floats: IEEE doubles / numpy / math.exp are MODELLED by exact rationals (executable instance rounds to a 2^-100 grid); implementation times are compared within 1e-6 s and knife-edge cases (an event within 1e-8 s of the end of a sleep, a weight within 1e-8 of the rejection threshold) are skipped and counted."
+CLAIMED["C09"] = {
+    "text": "Theorem never_ahead: for ANY non-empty set of human bells and ANY interleaving of human strikes (late, early, "
+            "doubled, a whole row ahead) with row turnovers, in every reachable state every human bell has struck in all "
+            "previous rows and a bell no longer awaited in the current row has struck in it - proved about the model "
+            "functions that mirror WaitForUserRhythm's expect_bell/on_bell_ring; plus: the polling loop has no time-out. "
+            "Tied to the code by closed-loop sessions under the virtual clock with adversarial human timing; oracle counts "
+            "human strikes from the simulated server's log at every Wheatley strike.",
+    "design_ref": "DESIGN.md section 3, C09", "note": TBR + " Statement-level interleaving inside the arming loop is not "
+            "covered (granularity H).",
+    "technique": "Coq proof: inductive invariant over all histories of an abstract band driving the model's bookkeeping functions + correspondence",
+}
+CLAIMED["C11"] = {
+    "text": "Theorems: I = m*60/(2520(2N+1)); blow index r*N+p+floor(r/2)*g; a tick whose blow is ahead sleeps exactly up "
+            "to start + I*blow; by induction over all blows no error accumulates whenever consecutive scheduled instants "
+            "are more than the 10 ms pause apart; steps are I (in a row / backstroke lead) and I(1+g) (handstroke lead); "
+            "5040 rows at gap 1 take exactly the requested time. Tied to the code by Wheatley-alone sessions over towers "
+            "4..16, speeds 60..600 (and infeasible ones), gaps, up to 40 rows, second touches after a human-bent first "
+            "touch; oracle: the closed form in exact rationals, 1e-6 s.",
+    "design_ref": "DESIGN.md section 3, C11", "note": TBR + " The composition of the per-tick lemmas with the system model's "
+            "main loop is by the recurrence theorem, not by a theorem about Sys.run (partial).",
+    "technique": "Coq proof over Q (field/lra, induction on blows) + correspondence with closed-form oracle",
+}
+CLAIMED["C12"] = {
+    "text": "Theorems (exact-rational instance): collinear data are recovered exactly by the weighted regression for any "
+            "weights/size/tempo; lerp laws: inertia 0 takes the new line, distance contracts by exactly t per retained "
+            "strike (t^k after k), lerp a a t = a (fixed point). Tied to the code by keep-going sessions with humans on "
+            "their own even line (tempo 0.93..1.07, >= 1/3 human bells, human or Wheatley leading, dataset sizes 5..30, "
+            "tempo changes); oracle: distance of Wheatley's strikes from the humans' line.",
+    "design_ref": "DESIGN.md section 3, C12", "note": TBR + " Retention of the strikes under the 7% tempo bound is checked "
+            "by the sessions, not proved (partial).",
+    "technique": "Coq proof over Q (field) + correspondence with line-distance oracle",
+}
+CLAIMED["C13"] = {
+    "text": "Theorems: with preferred inertia 1 a data point of any row > 0 leaves start and interval untouched (all "
+            "states); a point whose weight is <= 0.001 leaves the retained dataset exactly as it was; exp(-9) < 0.001 < "
+            "exp(-2.6^2) by kernel computation; refitting data on the current line returns the current line. Tied to the "
+            "code by PAIRED sessions: inertia 1 with post-row-1 human times perturbed by up to a row; settled touches "
+            "with one strike displaced by 3..N-2 places (incl. a lone human, rows >= 2); oracle compares the two runs.",
+    "design_ref": "DESIGN.md section 3, C13", "note": TBR,
+    "technique": "Coq proof + paired-run correspondence",
+}
+CLAIMED["C14"] = {
+    "text": "Theorems: WaitForUser hands time - delay to the inner rhythm in every inward call; the regression is "
+            "translation invariant (origin moved by any c moves the fitted start by c, interval unchanged); the one "
+            "absolute test (_start_time == 0) is exhibited. Tied to the code by PAIRED sessions: hold-ups of 3 ms..11 s "
+            "(also repeated, also followed by a second touch) with later events shifted, and the same session at clock "
+            "origins 1, 1e3, 1e6, 1.8e9; oracle: strike-by-strike differences.",
+    "design_ref": "DESIGN.md section 3, C14", "note": TBR + " At origin 1.8e9 the implementation pair is compared at 5 ms.",
+    "technique": "Coq proof over Q (field) + paired-run correspondence",
+}
+CLAIMED["C15"] = {
+    "text": "Theorems: Wheatley leading anchors the line at the start time given by the Bot (call + 3 s) with the configured "
+            "interval; a human leading puts the line at infinity, a human bell's tick then polls with no time-out, and only "
+            "the strike of the bell expected at blow 0 brings the line back (whatever other humans do first). Tied to "
+            "the code by sessions over every leader assignment, delays 0.3..45 s, custom start rows, other humans early; "
+            "oracle: first strike at exactly +3 s / nothing before the leader / first row placed from the leader's strike.",
+    "design_ref": "DESIGN.md section 3, C15", "note": TBR,
+    "technique": "Coq proof (case analysis of initialise_line / on_bell_ring; loop exit lemma) + correspondence",
+}
+
 _NYI = "check not built yet in this session; planned as a Coq proof (see DESIGN.md section 3)"
 NOT_APPLICABLE = {p: _NYI for p in
-                  ["C09", "C10", "C11", "C12", "C13", "C14", "C15", "C18", "C19"]}
+                  ["C10", "C18", "C19"]}
 
 NOTES = ("All checks share harness/check.py. Exit 0 = property held on everything explored; exit 1 + VIOLATION line "
          "= violation or broken tie between model and code; exit 2 + BROKEN-CHECK = our own machinery failed.")
